@@ -304,12 +304,13 @@ func (v *iview) reachesFrom(a int) map[int]bool {
 // recvField: the field of the ROOT's receiver an address in some frame denotes ("" if it is not one).
 func (v *iview) recvField(n *inode, addr ssa.Value) string {
 	if len(n.frame.fn.Params) == 0 {
-		return ""
+		return v.freeVarField(n.frame, addr)
 	}
 	// closures: the receiver is captured; a frame of a bound method / helper: parameter 0
 	fr := n.frame
 	if !fr.sameReceiver(v.root) {
-		return ""
+		// a closure of the method: the receiver is a captured variable
+		return v.freeVarField(fr, addr)
 	}
 	return rootFieldOfAddr(addr, fr.fn.Params[0])
 }
